@@ -86,6 +86,7 @@ def main():
         eng.explore(run)
         ck.absorb(eng)
 
+    LABEL_PREFIX[0] = ''
     # ------------------------------------------------------------ SM2 entry points and SM3 (protocol level with contracts + real helpers)
     peng = new_engine(prog, timeout_ms=3000)
     peng.use_linear_abstraction()
@@ -140,6 +141,46 @@ def main():
         audit(e, 'sm3 Write+Sum', {}, {data.obj: 'data'}, {h.v.obj})
         e.call(SM3 + '.SumSM3', [data])
         audit(e, 'SumSM3', {}, {data.obj: 'data'}, set())
+        # the SM2 entry points once more on the REAL group / field / point code (concrete inputs, no contracts), so that a
+        # package-level scratch value anywhere below the protocol layer shows up in the write set
+        INT_ = MOD + '/sm2/internal'
+        p7, _ = e.call(INT_ + '.ScalarBaseMult', [k])
+        e.store_log.clear()
+        for meth in ('GetAffineX_Unsafe', 'GetAffineX', 'Bytes', 'Bytes_Unsafe', 'IsInfinity'):
+            if ('(*%s.SM2Point).%s' % (INT_, meth)) in e.prog.funcs:
+                e.call_outcome('(*%s.SM2Point).%s' % (INT_, meth), [p7])
+                audit(e, 'SM2Point.' + meth, {p7.obj: 'point argument'}, {}, set())
+        e.call_outcome(INT_ + '.ScalarMult', [g, k])
+        audit(e, 'ScalarMult', {g.obj: 'point argument'}, {k.obj: 'scalar'}, set())
+        priv = e.new_slice([(i * 29 + 3) & 0xff for i in range(32)])
+        dig = e.new_slice([(i * 13 + 5) & 0xff for i in range(32)])
+        rd = Iface('stub:CReader', object())
+        e.store_log.clear()
+        o = e.call_outcome(SM2 + '.SignHashed', [rd, priv, dig])
+        if o.kind == 'return' and o.values[2] is None:
+            r_, s_, _ = o.values
+            audit(e, 'SignHashed (real group layer)', {}, {priv.obj: 'private key', dig.obj: 'digest'}, {r_.obj, s_.obj})
+            o2 = e.call_outcome(SM2 + '.DerivePublic', [priv])
+            audit(e, 'DerivePublic (real group layer)', {}, {priv.obj: 'private key'}, set())
+            if o2.kind == 'return' and o2.values[2] is None:
+                px_, py_, _ = o2.values
+                e.store_log.clear()
+                e.call_outcome(SM2 + '.VerifyHashed', [px_, py_, dig, r_, s_])
+                audit(e, 'VerifyHashed (real group layer)', {}, {px_.obj: 'public key x', py_.obj: 'public key y', dig.obj: 'digest', r_.obj: 'r', s_.obj: 's'}, set())
+                e.call_outcome(SM2 + '.CheckOnCurve', [px_, py_])
+                audit(e, 'CheckOnCurve (real field code)', {}, {px_.obj: 'public key x', py_.obj: 'public key y'}, set())
+            e.call_outcome(SM2 + '.GenerateKey', [rd])
+            audit(e, 'GenerateKey (real group layer)', {}, {}, set())
+        else:
+            findings.append(('SignHashed (real group layer)', 'not-run', 'concrete SignHashed on the real code did not return a signature: %s' % (o.panic.msg if o.kind == 'panic' else 'error')))
+
+    def creader(e, a, ins):
+        p = a[1]
+        for i in range(p.len):
+            e.slice_set(p, i, (i * 37 + 11) & 0xff)
+        return (p.len, None)
+    reng.method_models[('stub:CReader', 'Read')] = creader
+    reng.max_instrs = 2_000_000_000
     reng.explore(run_real)
     ck.absorb(reng)
     secs = time.time() - t0
@@ -185,6 +226,54 @@ func TestVerifReplay(t *testing.T) {
         race_ok, race_out = None, str(ex)
     if race_ok:
         ck.validated += 1
+    # the same for SM2: concurrent SignHashed / VerifyHashed / DerivePublic with fixed nonces against serial results
+    src2 = '''package sm2
+import ("testing"; "sync"; "bytes")
+type fixedReader struct{ b byte }
+func (r *fixedReader) Read(p []byte) (int, error) { for i := range p { p[i] = r.b + byte(i) }; return len(p), nil }
+func TestVerifReplay(t *testing.T) {
+	const G = 8
+	type res struct{ r, s, x, y []byte }
+	do := func(i int) res {
+		priv := make([]byte, 32); for j := range priv { priv[j] = byte(i*31 + j*7 + 1) }
+		e := make([]byte, 32); for j := range e { e[j] = byte(i + j*3) }
+		x, y, err := DerivePublic(priv); if err != nil { t.Fatal(err) }
+		r, s, err := SignHashed(&fixedReader{byte(i + 1)}, priv, e); if err != nil { t.Fatal(err) }
+		ok, err := VerifyHashed(x, y, e, r, s); if !ok || err != nil { t.Errorf("valid signature rejected (worker %d)", i) }
+		return res{r, s, x, y}
+	}
+	serial := make([]res, G)
+	for i := range serial { serial[i] = do(i) }
+	var wg sync.WaitGroup
+	for i := 0; i < G; i++ {
+		wg.Add(1)
+		go func(i int) {
+			defer wg.Done()
+			for n := 0; n < 40; n++ {
+				got := do(i)
+				if !bytes.Equal(got.r, serial[i].r) || !bytes.Equal(got.s, serial[i].s) || !bytes.Equal(got.x, serial[i].x) || !bytes.Equal(got.y, serial[i].y) { t.Errorf("worker %d: result differs from the serial run", i); return }
+			}
+		}(i)
+	}
+	wg.Wait()
+}'''
+    path2 = os.path.join(ck.outdir, 'race_sm2_test.go')
+    open(path2, 'w').write(src2)
+    ovp2 = os.path.join(ck.outdir, 'race_sm2_overlay.json')
+    json.dump({'Replace': {os.path.join(REPO, 'sm2', 'zz_verif_race_test.go'): path2}}, open(ovp2, 'w'))
+    cmd2 = ['go', 'test', '-race', '-vet=off', '-count=1', '-run', 'TestVerifReplay', '-overlay', ovp2, './sm2']
+    open(os.path.join(ck.outdir, 'race_sm2.cmd'), 'w').write('cd %s && %s\n' % (REPO, ' '.join(cmd2)))
+    try:
+        r2 = subprocess.run(cmd2, cwd=REPO, env=GOENV, capture_output=True, text=True, timeout=900)
+        race2_ok = r2.returncode == 0
+        race2_out = r2.stdout + r2.stderr
+    except Exception as ex:
+        race2_ok, race2_out = None, str(ex)
+    if race2_ok:
+        ck.validated += 1
+    if race2_ok is False and 'FAIL' in race2_out and ('DATA RACE' in race2_out or '--- FAIL' in race2_out):
+        if race_ok is not False:
+            race_ok, race_out, path = False, race2_out, path2
     keys = {}
     for label, k, desc in findings:
         keys.setdefault(k, []).append((label, desc))
